@@ -12,7 +12,7 @@ import fs
 import pkg_resources
 import six
 from fs.wrap import read_only
-from fs.path import splitext
+from fs.path import basename, splitext
 from property_cached import cached_property
 
 from .._impl import bz2, json
@@ -155,20 +155,31 @@ class FilesystemRegistry(AbstractRegistry):
     def _files(self):
         return ["*.{}".format(extension) for extension in self._extensions]
 
+    def _key(self, filename):
+        # the key of a plasmid file: it sits in the registry directory itself
+        # and is named "<key>.<extension>" with the extension spelled exactly,
+        # so that it is the file a lookup of "<key>" opens, whatever the
+        # wildcard matching or the path handling of the filesystem lets through
+        if basename(filename) != filename:
+            return None
+        name, extension = splitext(filename)
+        if extension[1:] in self._extensions and name + extension == filename:
+            return name
+        return None
+
     def __iter__(self):
         for f in self.fs.filterdir("/", files=self._files, exclude_dirs=["*"]):
-            name, _ = splitext(f.name)
-            yield name
+            key = self._key(f.name)
+            if key is not None:
+                yield key
 
     def __len__(self):
-        return sum(
-            1 for _ in self.fs.filterdir("/", files=self._files, exclude_dirs=["*"])
-        )
+        return sum(1 for _ in iter(self))
 
     def __getitem__(self, item):
         files = ("{}.{}".format(item, extension) for extension in self._extensions)
         for name in files:
-            if self.fs.isfile(name):
+            if self._key(name) == item and self.fs.isfile(name):
                 with self.fs.open(name) as handle:
                     record = CircularRecord(Bio.SeqIO.read(handle, "genbank"))
                     record.id, _ = splitext(name)
